@@ -243,7 +243,7 @@ func (*c9ScanInit) AfterPropertiesSet() error {
 func c09Unsat(c *core.Ctx) {
 	gen := func(yield func(c09UnsatCase) bool) {
 		alpha := []int{scen.ENone, scen.EName, scen.ESlice}
-		kinds := []string{"name-req", "name-opt", "type-req", "type-opt", "cfg-req", "cfg-opt", "func-req", "func-opt", "custom-req", "custom-opt", "pfx-req", "pfx-opt", "nametype-req", "nametype-opt", "cfgtypes-opt", "cfgempty-opt", "pfxtypes-opt"}
+		kinds := []string{"name-req", "name-opt", "type-req", "type-opt", "cfg-req", "cfg-opt", "func-req", "func-opt", "custom-req", "custom-opt", "pfx-req", "pfx-opt", "nametype-req", "nametype-opt", "cfgtypes-opt", "cfgempty-opt", "pfxtypes-opt", "namequal-req", "namequal-opt"}
 		extKinds := []string{"ext-fpp-req", "ext-scan-req", "ext-fppinit-req", "ext-scaninit-req"}
 		allGraphs(3, alpha, false, func(e [][]int) bool {
 			for _, lz := range []int{0, 4} {
